@@ -261,8 +261,35 @@ impl SeqScenario for C04 {
         let mut outcome = String::new();
         let mut witnesses = vec![];
         let mut next_req = 0u32;
-        for (step, &oi) in hist.iter().enumerate() {
-            let op = &alpha[oi];
+        // Canonical recovery probe, run after *every* history - also after those that are then
+        // merged into an already known state: the dedup key only sees the reference machine
+        // and the public views, so a breaker that carries hidden state across the merge (a
+        // stale half-open success count, a window that was not emptied) would otherwise be
+        // explored no further. Wait out the open period, succeed permitted+1 times, then fail
+        // until the window must have tripped; every step is compared like any other.
+        let mut all: Vec<Op> = hist.iter().map(|&oi| alpha[oi].clone()).collect();
+        all.push(Op::Wait(cfg.wait_ms));
+        for _ in 0..cfg.permitted + 1 {
+            all.push(Op::Call { ok: true, kind: 0, lat: 0 });
+        }
+        for _ in 0..cfg.window_size.max(cfg.effective_min_calls()).min(3) {
+            all.push(Op::Call { ok: false, kind: 0, lat: 0 });
+        }
+        let mut key_at_end: Option<String> = None;
+        let key_of = |w: &World, cb: &Box<dyn crate::handle::Cb>, cands: &Vec<Model>| -> String {
+            let now = w.now_ms();
+            let m = w.block_on(cb.metrics());
+            let mut cs: Vec<String> = cands.iter().map(|c| c.canon(now)).collect();
+            cs.sort();
+            cs.dedup();
+            let tsc = if m.state == CircuitState::Open { m.time_since_state_change.as_millis() as i64 } else { -1 };
+            format!("{:?}|{:?}/{}/{}/{}/{}/{}", cs, m.state, m.total_calls, m.failure_count, m.success_count, m.slow_call_count, tsc)
+        };
+        if hist.is_empty() {
+            key_at_end = Some(key_of(&w, &cb, &cands));
+        }
+        for (step, op) in all.clone().iter().enumerate() {
+            let in_probe = step >= hist.len();
             let t0 = w.now_ms();
             let mut admitted_impl: Option<bool> = None;
             let mut result: Option<Outcome> = None;
@@ -377,19 +404,25 @@ impl SeqScenario for C04 {
                     e.dedup();
                     e
                 };
-                let kind = if state_only_match { "admission_mismatch" } else { "state_mismatch" };
+                let kind = match (in_probe, state_only_match) {
+                    (false, true) => "admission_mismatch",
+                    (false, false) => "state_mismatch",
+                    (true, true) => "admission_mismatch_in_recovery_probe",
+                    (true, false) => "state_mismatch_in_recovery_probe",
+                };
                 viols.push(Viol::new(
                     kind,
                     site,
                     format!(
                         "after {:?} the breaker shows state {:?} admitted={:?}; the documented machine allows only {:?} (history {:?})",
-                        op_name(op), s_async, admitted_impl, expected, hist.iter().map(|&i| op_name(&alpha[i])).collect::<Vec<_>>()
+                        op_name(op), s_async, admitted_impl, expected, all[..=step].iter().map(op_name).collect::<Vec<_>>()
                     ),
                 ));
                 break;
             }
             cands = next_cands;
             if step + 1 == hist.len() {
+                key_at_end = Some(key_of(&w, &cb, &cands));
                 outcome = format!("{}:{:?}:{:?}", op_name(op), s_async, admitted_impl);
                 match (&op, s_async) {
                     (Op::Call { .. }, CircuitState::Open) => witnesses.push("opened_or_open_after_call"),
@@ -404,13 +437,9 @@ impl SeqScenario for C04 {
                 }
             }
         }
-        let now = w.now_ms();
-        let m = w.block_on(cb.metrics());
-        let mut cs: Vec<String> = cands.iter().map(|c| c.canon(now)).collect();
-        cs.sort();
-        cs.dedup();
-        let tsc = if m.state == CircuitState::Open { m.time_since_state_change.as_millis() as i64 } else { -1 };
-        let key = format!("{:?}|{:?}/{}/{}/{}/{}/{}", cs, m.state, m.total_calls, m.failure_count, m.success_count, m.slow_call_count, tsc);
+        // the key describes the state at the end of the history proper (before the probe); a
+        // history that already failed on the way has no successors anyway
+        let key = key_at_end.unwrap_or_else(|| key_of(&w, &cb, &cands));
         SeqOut { key, viols, outcome, witnesses, log, enabled: None }
     }
 }
@@ -446,6 +475,7 @@ pub fn grid(thorough: bool) -> Vec<CbCfg> {
                                     slow_rate,
                                     custom_classifier: custom,
                                     fallback: false,
+                                    fallback_gated: false,
                                 });
                             }
                         }
